@@ -254,6 +254,33 @@ func c01Commands(ctx *core.Ctx) {
 	c01Verdicts(ctx, cmds)
 	// ---- V15
 	c01Wiring(ctx, cmds)
+	// ---- V16: a condition's answer depends on the script's own state only through the cache key
+	ctx.Rule("V16", "condition caching: the process-wide cache behind [exec:prog] is keyed on every TestScript field its computation reads (C04.I8): otherwise a guard is answered with another script's or an earlier environment's result and the line is wrongly skipped or run", 1)
+	cacheKeyRule(ctx, "V16")
+	// ---- V17: skip checks the status of background commands first
+	ctx.Rule("V17", "skip settles background commands like wait does: on the way to T.Skip the background commands are waited for with their exit status checked (waitBackground(true), directly or through the wait command)", 1)
+	if sk := cmds["skip"]; sk != nil {
+		g := graph(p, sk)
+		checked := false
+		g.Instrs(func(i ssa.Instruction) {
+			c, ok := i.(*ssa.Call)
+			if !ok {
+				return
+			}
+			n := ssax.CalleeName(&c.Call)
+			if strings.HasSuffix(n, "TestScript).waitBackground") {
+				if k, ok := ssax.ConstBool(c.Call.Args[1]); ok && k {
+					checked = true
+				}
+			}
+			if strings.HasSuffix(n, "TestScript).cmdWait") {
+				if k, ok := ssax.ConstBool(c.Call.Args[1]); ok && !k && ssax.IsNil(c.Call.Args[2]) {
+					checked = true // wait with no arguments and no negation = waitBackground(true), see V8
+				}
+			}
+		})
+		ctx.Check(checked, "V17", "testscript.cmdSkip#status-checked", sk.Pos(), "skip waits for background commands with their status checked: a background command that ended the wrong way must fail the script, not be hidden by the skip")
+	}
 
 	// ---- V11
 	c01FatalScope(ctx)
